@@ -275,10 +275,12 @@ class Report:
         os.replace(tmp, os.path.join(EVIDENCE, f'{self.prop}.json'))
         for line in self.known_hits:
             print(line)
+        printed = set()
         for item in self.violations:
-            if 'replay' in item:
+            if 'replay' in item and item['replay'] not in printed:
+                printed.add(item['replay'])
                 print(f"VIOLATION property={self.prop} replay={item['replay']}")
-                print(f"  {item['text']}")
+                print(f"  {item['text'][:3000]}")
         summary = {key: value for key, value in cov.items() if key not in ('samples', 'notes')}
         print(f'[{self.prop}] tier={self.tier} seed={self.seed} wall={evidence["wall_s"]}s '
               f'violations={len(self.violations)} coverage={json.dumps(summary, default=str)[:600]}')
